@@ -169,8 +169,13 @@ func runExchange(w *World, loc, rem []int, user int64) (Events, []wireRec, map[c
 	if user > 0 {
 		exts = append(exts, graphsync.ExtensionData{Name: graphsync.ExtensionsDoNotSendFirstBlocks, Data: donotsendfirstblocks.EncodeDoNotSendFirstBlocks(user)})
 	}
-	pc, ec := requestor.Request(ctx, Peer(0), cidlink.Link{Cid: w.D.Root}, w.Sel, exts...)
 	var ev Events
+	requestor.RegisterIncomingBlockHook(func(p peer.ID, rd graphsync.ResponseData, bd graphsync.BlockData, ha graphsync.IncomingBlockHookActions) {
+		mu.Lock()
+		ev.Blks = append(ev.Blks, blockSeen{bd.Link().(cidlink.Link).Cid, bd.BlockSizeOnWire(), bd.Index()})
+		mu.Unlock()
+	})
+	pc, ec := requestor.Request(ctx, Peer(0), cidlink.Link{Cid: w.D.Root}, w.Sel, exts...)
 	pdone, edone := false, false
 	go func() {
 		for p := range pc {
